@@ -329,9 +329,39 @@ def name_pattern(ck, S, fn, rid, date_is_class):
     # only regular files
     el = [n for n in fn.calls("QDir::entryList")]
     ck.require(len(el) == 1, "%s: entryList not found" % short)
-    fl = const_int(el[0]["args"][0]) if el[0].get("args") else None
-    if fl is None and el[0].get("args"):
-        fl = skip_copies(el[0]["args"][0]).get("cv")
+    eargs = [a for a in el[0].get("args", [])]
+    if eargs and "QStringList" in (skip_copies(eargs[0]).get("type") or "") or (eargs and skip_copies(eargs[0]).get("k") in ("initlist",)) or \
+            (eargs and skip_copies(eargs[0]).get("k") == "construct" and "QStringList" in (skip_copies(eargs[0]).get("class") or "") + (skip_copies(eargs[0]).get("type") or "")):
+        # entryList(nameFilters, filters, sort): the name filters are wildcard patterns ([...], *, ?). A piece of the log file's own name
+        # inside one is interpreted, not matched literally: for `worker[1].log` the filter `worker[1].*` matches none of its rotated files
+        nf = eargs[0]
+        from engine.strabs import StrEval
+        pieces = [x for x in walk(nf) if x.get("k") in ("ref", "call") and ("QString" in (x.get("type") or ""))]
+        owner_fn = S.owner(nf) or fn
+        namey = []
+        work, seen_ = list(pieces), set()
+        for _ in range(200):
+            if not work:
+                break
+            x = work.pop()
+            if x.get("id") in seen_:
+                continue
+            seen_.add(x.get("id"))
+            y = skip_copies(deref_local(owner_fn, x))
+            if is_call(y, ("QFileInfo::completeBaseName", "QFileInfo::baseName", "QFileInfo::fileName", "QFileInfo::suffix", "QFileInfo::completeSuffix", "QFileDevice::fileName", "QFile::fileName")):
+                namey.append(y)
+            elif y.get("k") == "ref" and y.get("dk") == "param":
+                namey.append(y)      # a helper's parameter: the caller hands in text built from the file name
+            elif y.get("id") != x.get("id") or y.get("k") == "call":
+                work += [z for z in walk(y) if z.get("k") in ("ref", "call") and "QString" in (z.get("type") or "") and z.get("id") not in seen_]
+        ck.ob(rid, sitestr(fn, el[0]), False if namey else None,
+              "%s lists the directory through a QDir name filter built from %s: name filters are wildcard patterns, so '[', ']', '*' and '?' in the log file's name are interpreted "
+              "(worker[1].log: the filter matches none of its own rotated files, the next index is always 1, retention never sees them)" % (short, describe(namey[0])[:40]) if namey else
+              "%s lists the directory through name filters this rule cannot evaluate" % short, key="%s|name-filter" % short)
+        eargs = eargs[1:]
+    fl = const_int(eargs[0]) if eargs else None
+    if fl is None and eargs:
+        fl = skip_copies(eargs[0]).get("cv")
     # QDir::Files = 0x002, Dirs = 0x001, Hidden = 0x100: every file that can carry a rotated name must be listed, also the rotated
     # files of a dot-file log (~/.app.log), which QDir leaves out unless Hidden is given; directories are no candidates
     okf = fl is not None and bool(fl & 0x002) and bool(fl & 0x100) and not (fl & 0x001)
